@@ -357,7 +357,7 @@ pub fn run(cs: &Case) -> Outcome {
 /// cross-field constraints of the generators (see c07::in_domain)
 pub fn in_domain(cs: &Case) -> bool {
     use crate::props::c07::{map_ok, tree_ok};
-    cs.global.iter().all(map_ok)
+    cs.global.iter().all(|m| map_ok(m) && m.2 > 0)
         && !cs.backends.is_empty()
         && cs.backends.iter().all(tree_ok)
         && cs.ops.iter().all(|o| match o {
@@ -369,7 +369,7 @@ pub fn in_domain(cs: &Case) -> bool {
 pub fn strategy() -> BoxedStrategy<Case> {
     let mapopt = prop_oneof![3 => Just(None), 1 => map_strategy().prop_map(Some)];
     let op = prop_oneof![
-        6 => (any::<u8>(), 0u8..PATHS.len() as u8, mapopt.clone()).prop_map(|(b, path, map)| Op::Mount { b, path, map }),
+        6 => (any::<u8>(), 0u8..PATHS.len() as u8, prop_oneof![8 => mapopt.clone(), 1 => Just(Some((1000u32, 2000u32, 0u32)))]).prop_map(|(b, path, map)| Op::Mount { b, path, map }),
         3 => (0u8..PATHS.len() as u8).prop_map(|path| Op::Umount { path }),
         1 => prop_oneof![3 => 1u16..6, 1 => 250u16..260].prop_map(Op::Burst),
         4 => proptest::collection::vec(0u8..NAMES.len() as u8, 1..4).prop_map(Op::Walk),
